@@ -181,7 +181,12 @@ async fn resolve_container_inner<'a, T: ContainerType + ?Sized>(
     fields.add_set(ctx, root)?;
 
     let res = if parallel {
-        futures_util::future::try_join_all(fields.0).await?
+        // Wait for every field, then report the first error in document order, so
+        // that the response does not depend on which resolver happens to fail first.
+        futures_util::future::join_all(fields.0)
+            .await
+            .into_iter()
+            .collect::<ServerResult<Vec<_>>>()?
     } else {
         let mut results = Vec::with_capacity(fields.0.len());
         for field in fields.0 {
